@@ -51,8 +51,7 @@ def rfC (sv : Server) (sid : Nat) (s : Sess) (path : Bytes) (e : Entry) (f : Opt
       (travGlobal sv (pmPut [] (adjustPrefix path (some defaultPrefix)) none) false (getDataCb s)).foldl
         (rfStep s sid (adjustPrefix path (some defaultPrefix)) e f) sv
     else sv).updSess sid (fun t => { t with subs := pmPut t.subs (adjustPrefix path (some defaultPrefix)) f })).updSess sid
-    (fun t => { t with params := if t.params.contains (subscribePrefix ++ path) then t.params
-      else t.params ++ [subscribePrefix ++ path] }))
+    (fun t => { t with params := subParams t.params path }))
 
 theorem subscribe_refilter_eq {sv : Server} {sid : Nat} {s : Sess} (hs : sv.sess? sid = some s) (path : Bytes) (f : Option Filt)
     {e : Entry} (hf : pmFind s.subs (adjustPrefix path (some defaultPrefix)) = some e) :
@@ -524,8 +523,7 @@ theorem refilter_quiescent {sid : Nat} {sv : Server} {s : Sess} {m : Mirror} (q 
   -- (1) the fold
   have hA : ∃ A, RfInv sv sid s A (rfEvs s fix e f sv V) ∧
       rfC sv sid s path e f = ((A.updSess sid (fun t => { t with subs := pmPut t.subs fix f })).updSess sid
-        (fun t => { t with params := if t.params.contains (subscribePrefix ++ path) then t.params
-          else t.params ++ [subscribePrefix ++ path] })) := by
+        (fun t => { t with params := subParams t.params path })) := by
     unfold rfC
     rw [hfix, hVdef]
     by_cases hc : (s.subsEnabled && (f.isSome || e.filter.isSome)) = true
@@ -543,18 +541,15 @@ theorem refilter_quiescent {sid : Nat} {sv : Server} {s : Sess} {m : Mirror} (q 
   obtain ⟨A, ⟨hrA, sA, sentA, hsA, hcA, hdA, hviewA, hprovA, hdirtyA⟩, hCeq⟩ := hA
   rw [hCeq] at hinv' ⊢
   generalize hBdef : ({ ({ sA with subs := pmPut sA.subs fix f } : Sess) with
-      params := if sA.params.contains (subscribePrefix ++ path) then sA.params
-        else sA.params ++ [subscribePrefix ++ path] } : Sess) = sB
+      params := subParams sA.params path } : Sess) = sB
   have hsB : (((A.updSess sid (fun t => { t with subs := pmPut t.subs fix f })).updSess sid
-        (fun t => { t with params := if t.params.contains (subscribePrefix ++ path) then t.params
-          else t.params ++ [subscribePrefix ++ path] }))).sess? sid = some sB := by
+        (fun t => { t with params := subParams t.params path }))).sess? sid = some sB := by
     rw [← hBdef]
     refine sess?_updSess_same _ sid _ ?_ (sess?_updSess_same A sid _ ?_ hsA)
     · intro _; rfl
     · intro _; rfl
   generalize hCdef : ((A.updSess sid (fun t => { t with subs := pmPut t.subs fix f })).updSess sid
-        (fun t => { t with params := if t.params.contains (subscribePrefix ++ path) then t.params
-          else t.params ++ [subscribePrefix ++ path] })) = C at hsB hinv' ⊢
+        (fun t => { t with params := subParams t.params path })) = C at hsB hinv' ⊢
   have hrootC : C.root = sv.root := by rw [← hCdef]; exact hrA
   have hdirtyC : C.subsDirty = A.subsDirty := by rw [← hCdef]; rfl
   have hsubsA : sA.subs = s.subs := core_subs hcA
